@@ -46,6 +46,16 @@ def handle : Handler := fun op args =>
     some s!"ok {d.coeff} {d.exp}"
   | "btc2sat", [c, e] => do
     some s!"ok {btcToSatoshi ⟨← parseInt? c, ← parseInt? e⟩}"
+  | "btc2sat_s", [t] => do
+    let b ← parseHex? t
+    match Dec.ofString? (String.ofList (b.map fun x => Char.ofNat x.toNat)) with
+    | some d => some s!"ok {btcToSatoshi d}"
+    | none => some "err InvalidOperation"
+  | "mbtc2sat_s", [t] => do
+    let b ← parseHex? t
+    match Dec.ofString? (String.ofList (b.map fun x => Char.ofNat x.toNat)) with
+    | some d => some s!"ok {mbtcToSatoshi d}"
+    | none => some "err InvalidOperation"
   | "sat2mbtc", [n] => do
     let d := satoshiToMbtc (← parseInt? n)
     some s!"ok {d.coeff} {d.exp}"
